@@ -23,6 +23,11 @@ Definition unmask_short (w len : N) : bytes :=
 
 Definition ceil32 (n : N) : N := (n + 31) / 32.
 
+(** u64Ceiling(nom, 32) as the code computes it on uint64 operands: quotient, plus one when there is a remainder — no
+    intermediate value can exceed 2^64.  (Before fix F17 it was (nom + 31) / 32 in uint64 arithmetic, which wraps for
+    nom within 31 of 2^64: Findings/PreFix_Ceil.v.)  [u64_ceiling32_is_ceil32] shows it is the mathematical ceiling. *)
+Definition u64_ceiling32 (n : N) : N := n / 32 + (if n mod 32 =? 0 then 0 else 1).
+
 Section Reader.
   Variable st : N -> N.            (* storage of the executing contract *)
   Variable keccak : bytes -> N.
@@ -32,17 +37,20 @@ Section Reader.
     let base := keccak (word_bytes slot) in
     map (fun i => st (u256 (base + N.of_nat i))) (seq 0 (N.to_nat cnt)).
 
-  (** the bytes recorded by the reference journal for [slot] *)
-  Definition vr_read (slot : N) : res bytes :=
+  (** the bytes recorded by the reference journal for [slot]; [count] = how many data slots are read for a length.
+      `stateBytes = stateBytes[:length]` is a Go slice expression: it panics when [length] exceeds what was appended
+      (capacity beyond the appended bytes is not relied upon). *)
+  Definition vr_read_with (count : N -> N) (slot : N) : res bytes :=
     let w := st slot in
     let? len := extract_storage_len w in
     if len <? 32 then Ok (unmask_short w len)
-    else Ok (firstn (N.to_nat len) (flat_map word_bytes (long_words slot (ceil32 len)))).
+    else go_slice (flat_map word_bytes (long_words slot (count len))) 0 len.
+  Definition vr_read (slot : N) : res bytes := vr_read_with u64_ceiling32 slot.
 
   (** number of storage reads performed (C20): one for the length word + one per data slot *)
   Definition vr_reads (slot : N) : N :=
     match extract_storage_len (st slot) with
-    | Ok len => if len <? 32 then 1 else 1 + ceil32 len
+    | Ok len => if len <? 32 then 1 else 1 + u64_ceiling32 len
     | _ => 1
     end.
 End Reader.
